@@ -30,7 +30,7 @@ REGISTRY = {
                    dict(kind='egg', file='replays/cont/merged_container_parent_refresh.egg'),
                    dict(kind='egg', file='replays/cont/merged_container_parent_refresh.egg', args=('-j', '4')),
                    dict(kind='egg', file='replays/cont/nested_containers.egg', args=('-j', '4'))]},
-    'sched': {'*': [dict(kind='egg', file='replays/sched/schedules.egg'), dict(kind='egg', file='replays/sched/nested_repeat.egg')]},
+    'sched': {'*': [dict(kind='egg', file='replays/sched/schedules.egg'), dict(kind='egg', file='replays/sched/nested_repeat.egg'), dict(kind='egg', file='replays/sched/zero_count.egg')]},
     'merge': {'*': [dict(kind='egg', file='replays/merge/merge_and_subsume.egg'), dict(kind='egg', file='replays/merge/subsumed_relation_row.egg'),
                     dict(kind='egg', file='replays/merge/parallel_in_batch_merge.egg', args=('-j', '4'), env={'EGGLOG_PARALLEL_TABLE_OP_CUTOFF': '0'}),
                     dict(kind='egg', file='replays/merge/extract_skips_subsumed.egg', forbid_out='(Mul (Var "a") (Num 2))', require_out='(Shl (Var "a") (Num 1))')]},
@@ -48,7 +48,7 @@ REGISTRY = {
     'subsumehead': {'*': [dict(kind='egg', file='replays/findings/f5_subsume_new_row_in_same_head.egg')]},
     # pseudo-unit: the Rust API write path (EGraph::update -> bridge flush_updates), C05 thorough tier only (F4)
     'apiupdate': {'*': [dict(kind='harness', name='update_nomerge')]},
-    'driver': {'flush_updates_inner': [dict(kind='harness', name='update_nomerge')], '*': [dict(kind='egg', file='replays/driver/nomerge_conflict_by_union.egg'), dict(kind='egg', file='replays/driver/panic_during_rebuild_fixpoint.egg'), dict(kind='egg', file='replays/driver/panic_before_rebuild.egg'), dict(kind='egg', file='replays/semi/seminaive.egg'),
+    'driver': {'flush_updates_inner': [dict(kind='harness', name='update_nomerge')], '*': [dict(kind='egg', file='replays/driver/nomerge_conflict_by_union.egg'), dict(kind='egg', file='replays/driver/panic_during_rebuild_fixpoint.egg'), dict(kind='egg', file='replays/driver/wide_constructor_congruence.egg'), dict(kind='egg', file='replays/driver/panic_before_rebuild.egg'), dict(kind='egg', file='replays/semi/seminaive.egg'),
                      dict(kind='egg', file='replays/driver/parallel_rebuild_every_row.egg', args=('-j', '4'), env={'EGGLOG_PARALLEL_REBUILD_CUTOFF': '1000'}),
                      dict(kind='egg', file='replays/driver/parallel_rebuild_every_row.egg')]},
 }
